@@ -152,6 +152,17 @@ def run(ctx, host=None):
     if not viols:
         chk.ok(R4, q, f'{len(feeding)} feeding query site(s)', detail='all after the session reload')
 
+    # R4b: pack_all_loose too removes loose files only for keys it staged and committed itself, never on the word of an earlier (possibly stale
+    # or uncommitted) index view -- otherwise objects acknowledged through other handles can vanish from every handle
+    from .machines import PackMachine, explore, report_violations
+    qp = 'container:Container.pack_all_loose'
+    found, mp = explore(ctx, chk, qp, {}, lambda g, c: PackMachine(ctx, g, require_durable=False, rule_flush='C08.R4x', rule_durable='C08.R4x', rule_unlink='C08.R4', rule_exc='C08.R4x'),
+                        write_policy(depth=5), 'wp5')
+    found = [(v, c) for v, c in found if v.rule == 'C08.R4']
+    report_violations(chk, qp, found)
+    if not found:
+        chk.ok(R4, qp, f'{len(mp.sites.tracked_unlinks)} tracked-unlink site(s)', detail='loose files unlinked only for keys staged and committed by the call itself')
+
     return chk.finish(
         explanation=('Typestate on the cached operation session (possibly-pinned at entry / none / fresh) along all paths: the read funnel answers MISSING only after '
                      'probe -> refresh -> query on the new session; list_all_objects (and any other public pure view with its own index query that is not a tabled '
